@@ -4,4 +4,5 @@ open PgmVerif
 #print axioms PgmVerif.C09_colmajor_entry
 #print axioms PgmVerif.C09_uai_index_bijection
 #print axioms PgmVerif.C09_round4_bound
+#print axioms PgmVerif.C09_round4_idempotent
 #print axioms PgmVerif.C09_net_decimals_tie
